@@ -157,5 +157,8 @@ def harness_crate(name):
             if f in ('Cargo.toml', 'build.rs'):
                 p = os.path.join(root, f)
                 t = open(p).read().replace('"/repo/', '"' + REPO.rstrip('/') + '/')
+                import re as _re
+                for sub in set(_re.findall(r'"/verif/(gen-crates/[\w-]+)"', t)):
+                    t = t.replace('"/verif/' + sub + '"', '"' + harness_crate(sub) + '"')
                 open(p, 'w').write(t)
     return dst
